@@ -263,21 +263,31 @@ Qed.
    (t / alpha) * alpha * 65535 + 0.5 (relative perturbation at most 1 + 2^-22 in total, absolute
    2^-9 for the final addition), the quantised channel cannot exceed r, hence not alpha >= r *)
 Definition premul_margin (r bits : Z) : Prop :=
-  (65535 * f32_val bits * (1 + / 4194304) + / 2 + / 512 < IZR r + 1)%R.
+  f32_ok bits = true /\
+  (65535 * f32_val bits * (1 + / 4194304) + / 2 + / 512 < IZR r + 1)%R /\
+  (f32_val bits = 0 \/ bpow radix2 (-100) <= f32_val bits <= 1)%R.
 Definition check_premul_entry (r bits : Z) : bool :=
   f32_ok bits &&
-  let t := f32_dy bits in
-  (* 65535 * t * (2^22 + 1) * 2^-22 + (2^8 + 1) * 2^-9  <  r + 1, all exact *)
-  lt_d (add_d (fst t * 65535 * 4194305, snd t + (-22)) (257, -9)) (int_d (r + 1)).
+  (let t := f32_dy bits in
+   (* 65535 * t * (2^22 + 1) * 2^-22 + (2^8 + 1) * 2^-9  <  r + 1, all exact *)
+   lt_d (add_d (fst t * 65535 * 4194305, snd t + (-22)) (257, -9)) (int_d (r + 1))) &&
+  (* the table value is 0 or in [2^-100, 1]: no underflow in the float32 evaluation *)
+  (let t := f32_dy bits in (fst t =? 0) || (le_d (1, -100) t && le_d t (1, 0))).
 Lemma check_premul_entry_sound r bits : check_premul_entry r bits = true -> premul_margin r bits.
 Proof.
-  unfold check_premul_entry. intros H. apply andb_prop in H. destruct H as [_ H]. cbv zeta in H.
-  apply lt_d_sound in H. rewrite val_add, val_int in H. unfold premul_margin, f32_val.
-  destruct (f32_dy bits) as [m e]. cbn [fst snd] in H. unfold val, F2R in *. cbn [Fnum Fexp fst snd] in *.
-  rewrite !mult_IZR in H. rewrite bpow_plus in H. rewrite plus_IZR in H.
-  replace (bpow radix2 (-22)) with (/ 4194304)%R in H by (simpl; lra).
-  replace (bpow radix2 (-9)) with (/ 512)%R in H by (simpl; lra).
-  lra.
+  unfold check_premul_entry. intros H. apply andb_prop in H. destruct H as [H Hrange].
+  apply andb_prop in H. destruct H as [Hok H]. cbv zeta in H, Hrange. split; [exact Hok|]. split.
+  - apply lt_d_sound in H. rewrite val_add, val_int in H. unfold f32_val.
+    destruct (f32_dy bits) as [m e]. cbn [fst snd] in H. unfold val, F2R in *. cbn [Fnum Fexp fst snd] in *.
+    rewrite !mult_IZR in H. rewrite bpow_plus in H. rewrite plus_IZR in H.
+    replace (bpow radix2 (-22)) with (/ 4194304)%R in H by (simpl; lra).
+    replace (bpow radix2 (-9)) with (/ 512)%R in H by (simpl; lra).
+    lra.
+  - unfold f32_val. apply orb_prop in Hrange. destruct Hrange as [Hz|Hr].
+    + left. apply Z.eqb_eq in Hz. unfold val, F2R. cbn [Fnum Fexp]. rewrite Hz. simpl. lra.
+    + right. apply andb_prop in Hr. destruct Hr as [H1 H2]. apply le_d_sound in H1. apply le_d_sound in H2.
+      unfold val at 1 in H1. unfold val at 2 in H2. unfold F2R in H1, H2. cbn [Fnum Fexp fst snd] in H1, H2.
+      rewrite Rmult_1_l in H1. replace (1 * bpow radix2 0)%R with 1%R in H2 by (simpl; lra). split; assumption.
 Qed.
 Definition check_premul_chunk (start : Z) (l : list Z) : bool := check_idx check_premul_entry start l.
 Theorem check_premul_chunk_sound start l : check_premul_chunk start l = true -> AllIdx premul_margin start l.
